@@ -174,6 +174,13 @@ void mutate_checks(Seq const &s, i64 p, int rel, char const *name)
       C const b = fcppt::algorithm::reverse(std::move(src));
       chkk(ids(a) == want && ids(b) == want, lazy_key("algorithm::reverse|result", name), [&] { return "reverse(" + show(s) + ") gave ids " + show(ids(a)) + " (lvalue) / " + show(ids(b)) + " (rvalue)"; });
       chkk(after == ids(make<std::vector<El>>(s)), lazy_key("algorithm::reverse|lvalue-source-unchanged", name), [&] { return "reverse of an lvalue changed its argument to " + show(after); });
+      // a NON-CONST lvalue: the same result, and the argument is still what it was
+      C mut = make<C>(s);
+      C const m1 = fcppt::algorithm::reverse(mut);
+      IV const after_mut = ids(mut);
+      C const m2 = fcppt::algorithm::reverse(mut);
+      chkk(ids(m1) == want && ids(m2) == want && after_mut == ids(make<std::vector<El>>(s)), lazy_key("algorithm::reverse|non-const-lvalue", name),
+           [&] { return "reverse(non-const lvalue " + show(s) + ") gave ids " + show(ids(m1)) + ", left the argument as " + show(after_mut) + ", a second call gave " + show(ids(m2)); });
     }
   }
 }
